@@ -40,6 +40,7 @@ def run(rep):
         if "NativeInt" in t:
             hs.append(H(gen.name("c14_exact", t), "total preorder on %s x %s x %s with |int| <= 2^24 (all promotions exact)" % t, complete=True, tiers=tiers, timeout=tmo))
     hs.append(H("c14_rep_bigint_vs_native", "integers beyond 64 bits (-10^23, 10^23) against EVERY native integer: ordered by sign and magnitude, both operand orders", complete=False, bound="two concrete big integers x all isize values", timeout=1500))
+    hs.append(H("c14_rep_small_bigint_vs_native", "small integers carried as big integers (5, -3: results of big-integer arithmetic) against EVERY native integer: ordered by value, both operand orders", complete=False, bound="two concrete small big integers x all isize values", timeout=1500))
     rep.assume(common.ASSUMPTION)
     rep.assume("CBMC's bit-precise IEEE-754 semantics for f32/f64 comparison and int->float conversion (round-to-nearest-even)")
     rep.functions += ["<&SparqlNumber as PartialOrd>::partial_cmp, SparqlNumber::coercing_operator / coerce_to_float / coerce_to_double (sparql/src/value/_number.rs)"]
@@ -101,7 +102,7 @@ def run_order_by_stand_in(rep):
     fns = "EvalResult::sparql_order_by / sparql_cmp (sparql/src/expression.rs), SparqlValue::partial_cmp (value.rs), XsdDateTime ordering, BigInt / BigDecimal comparisons (_number.rs), cmp_bindings_with + sort (exec.rs)"
     if rc in (0, 1):
         rep.obligation("native:c14_order_by", "native exhaustive enumeration (rustc, real crates)", rc == 0, seconds=secs,
-                       detail="pool of 40 values (unbound, blank nodes, IRIs, integers incl. beyond 64 bits, decimals, floats, doubles, derived integer types, strings, booleans, zoned dateTimes, language strings, unknown datatype): pairwise order read off two-row ORDER BY queries is a total preorder, puts unbound < blank < IRI < literal, agrees with an independent statement of '<' (and so does FILTER), whole-pool ASC/DESC sorts are sorted permutations, second key breaks ties (4 ASC/DESC combinations), a first key without value (never bound / erroring expression) leaves the decision to the later keys (5 key lists), expression keys mixing computed values and raw terms (COALESCE(?x - ?d, ?x), 13 rows) keep a total preorder that agrees with the numeric values | functions: " + fns + " | " + out.strip()[-150:],
+                       detail="pool of 40 values (unbound, blank nodes, IRIs, integers incl. beyond 64 bits, decimals, floats, doubles, derived integer types, strings, booleans, zoned dateTimes, language strings, unknown datatype): pairwise order read off two-row ORDER BY queries is a total preorder, puts unbound < blank < IRI < literal, agrees with an independent statement of '<' (and so does FILTER), whole-pool ASC/DESC sorts are sorted permutations, second key breaks ties (4 ASC/DESC combinations), a first key without value (never bound / erroring expression) leaves the decision to the later keys (5 key lists), expression keys mixing computed values and raw terms (COALESCE(?x - ?d, ?x), 17 rows incl. small results of big-integer arithmetic) keep a total preorder that agrees with the numeric values | functions: " + fns + " | " + out.strip()[-150:],
                        complete=False, bound="40 values, 1600 pairs, 64000 triples, 78 two-key rows")
         rep.functions.append(fns + " [bounded native stand-in]")
         if rc == 1:
